@@ -3,8 +3,8 @@ package main
 // C06 end to end: the TCP processor in front of scripted backends; which backend each connection reaches, the per-host
 // connection count the balancer reads, and what happens to connections when their host is removed.
 //   case line:  <policy rr|least|random> <nbackends> # ops
-//   ops: o (open a connection and keep it) | c<i> (close the i-th kept connection) | d<b> / u<b> (backend b refuses / accepts)
-//        r<b> (remove host b from the service) | a<b> (add it again)
+//   ops: o (open a connection and keep it) | H (the same, and the backend then finishes its direction: a half-closed relay still counts) | c<i> (close the i-th kept connection) | d<b> / u<b> (backend b refuses / accepts)
+//        r<b> (remove host b from the service) | a<b> (add it again) | U<n> (configuration update: another idle timeout, same policy)
 //   output per op:  o -> b<k> (backend reached) or fail;  then after every op the hosts' counts "n0,n1,.."
 //                   r<b> -> closed=<number of kept connections to b that saw end-of-stream>
 
@@ -22,6 +22,7 @@ import (
 	"github.com/samaritan-proxy/samaritan/host"
 	"github.com/samaritan-proxy/samaritan/pb/config/service"
 	"github.com/samaritan-proxy/samaritan/proc"
+	"github.com/samaritan-proxy/samaritan/utils"
 )
 
 type c06Backend struct {
@@ -45,7 +46,17 @@ func (b *c06Backend) serve() {
 			go func() {
 				defer c.Close()
 				c.Write(b.hello) // tells the client which backend it reached
-				io.Copy(io.Discard, c)
+				// a client that says 'H' gets this direction finished (half-close); what it sends is still read
+				one := make([]byte, 1)
+				for {
+					n, err := c.Read(one)
+					if err != nil {
+						return
+					}
+					if n == 1 && one[0] == 'H' {
+						c.(*net.TCPConn).CloseWrite()
+					}
+				}
 			}()
 		}
 	}()
@@ -189,7 +200,7 @@ func runC06tcp(line string) string {
 		}
 		res := ""
 		switch op[0] {
-		case 'o':
+		case 'o', 'H':
 			c, err := net.DialTimeout("tcp", addr, time.Second)
 			if err != nil {
 				res = "noconnect"
@@ -201,6 +212,15 @@ func runC06tcp(line string) string {
 				k := &kept{c: c, b: int(b[0] - '0'), open: true}
 				ks = append(ks, k)
 				res = "b" + string(b)
+				if op[0] == 'H' {
+					// the backend finishes its direction; the relay goes on in ours, the connection still counts
+					c.Write([]byte("H"))
+					c.SetReadDeadline(time.Now().Add(time.Duration(float64(2*time.Second) * loadFactor)))
+					if n, err := c.Read(b); !(n == 0 && err == io.EOF) {
+						res += "-no-eof"
+					}
+					c.Write([]byte("x"))
+				}
 			} else {
 				c.Close()
 				res = "fail"
@@ -268,6 +288,12 @@ func runC06tcp(line string) string {
 			h := host.New(bes[arg].addr)
 			hosts[arg] = h
 			p.OnSvcHostAdd([]*host.Host{h})
+		case 'U':
+			// a configuration update that changes neither the policy nor the hosts (another idle timeout)
+			nc := tcpConfig(port)
+			nc.LbPolicy = cfg.LbPolicy
+			nc.IdleTimeout = utils.DurationPtr(time.Duration(601+arg) * time.Second)
+			p.OnSvcConfigUpdate(nc)
 		case 'c':
 			if arg < len(ks) && ks[arg].open {
 				ks[arg].c.Close()
@@ -325,8 +351,8 @@ func runC06tcp(line string) string {
 		outs = append(outs, strings.TrimSpace(res+" "+counts()))
 		if op[0] == 'O' {
 			annotated = append(annotated, op+":"+strings.Fields(res)[0])
-		} else if op[0] == 'o' {
-			annotated = append(annotated, "o:"+res)
+		} else if op[0] == 'o' || op[0] == 'H' {
+			annotated = append(annotated, op[:1]+":"+res)
 		} else {
 			annotated = append(annotated, op)
 		}
@@ -366,7 +392,7 @@ func init() {
 			lines = readLines(*fIn)
 		} else {
 			r := newRng(*fSeed)
-			lines = append(lines, "least 2 # d0 o o o o o o u0 o o c0 c1 o", "rr 3 # o o o o o o r1 o o o a1 o o o",
+			lines = append(lines, "least 2 # d0 o o o o o o u0 o o c0 c1 o", "rr 3 # o o o o o o r1 o o o a1 o o o", "rr 3 # o U0 o o U1 o o o U2 o o o U3 o", "least 2 # H H H o o o c0 o c1 o o",
 				"rr 3 bh # O0 O1 O0 O1 O0 O1 O0 O1 O0", "random 3 bh # O1 O0 O1 O0 O1 O0 O1 O0 O1 O0")
 			for i := 0; i < *fN; i++ {
 				nb := 2 + r.intn(2)
@@ -375,7 +401,9 @@ func init() {
 				nk := 0
 				removed := map[int]bool{}
 				for j, nj := 0, 4+r.intn(16); j < nj; j++ {
-					switch r.intn(10) {
+					switch r.intn(11) {
+					case 10:
+						ops = append(ops, fmt.Sprintf("U%d", r.intn(50)))
 					case 0:
 						ops = append(ops, fmt.Sprintf("d%d", r.intn(nb)))
 					case 1:
@@ -395,6 +423,9 @@ func init() {
 							ops = append(ops, fmt.Sprintf("a%d", x))
 							break
 						}
+					case 9:
+						ops = append(ops, "H")
+						nk++
 					default:
 						ops = append(ops, "o")
 						nk++
